@@ -64,7 +64,14 @@ SubPayloads(M, depth) ==
         d == IF msgs = <<>> \/ depth = 0 THEN <<>>
              ELSE << RecBytes(msgs[1].num, SubPayloads(msgs[1].msg, depth - 1)[2]) >>
         u == << RecVarint(77, <<5, 0, 0, 0, 0, 0, 0, 0, 0, 0>>) >>
-    IN << <<>> >> \o a \o b \o c \o d \o u
+        maps == SelectSeq(fs, LAMBDA fd : fd.card = "map" /\ fd.vk # "message")
+        \* two entries of a nested map in one payload (map iteration order matters below the top level)
+        e == IF maps = <<>> THEN <<>>
+             ELSE LET fd == maps[1]
+                      ent(k, x) == RecBytes(fd.num, TagBytes(1, WireOf(fd.kk)) \o EncScalar(fd.kk, k)
+                                                    \o TagBytes(2, WireOf(fd.vk)) \o EncScalar(fd.vk, x))
+                  IN << ent(Pool(fd.kk)[2], Pool(fd.vk)[1]) \o ent(Pool(fd.kk)[1], Pool(fd.vk)[2]) >>
+    IN << <<>> >> \o a \o b \o c \o d \o u \o e
 
 EntryRecs(fd) ==
     LET k1 == TagBytes(1, WireOf(fd.kk)) \o EncScalar(fd.kk, Pool(fd.kk)[1])
@@ -179,6 +186,16 @@ SizeIsLen == SizeMsg(S, T, val) = Len(EncMsg(S, T, val))
 BackFillRefinesEnc == BackFill(S, T, val) = EncMsg(S, T, val)
 NormalInv == Normal(S, T, val)
 EncWellFormed == WellFormedBytes(EncMsg(S, T, val))
+\* C05: with the Deterministic flag the bytes do not depend on the map iteration order, at any
+\* depth.  VERIF_FWD = "0" selects the non-vacuity variant in which nested marshals drop the
+\* flag; DetIsPure must then FAIL (checked by `verif selftest`).
+Fwd == IOEnv.VERIF_FWD # "0"
+DetIsPure == EncMsgO(S, T, val, [det |-> TRUE, ord |-> "asc", fwd |-> Fwd])
+             = EncMsgO(S, T, val, [det |-> TRUE, ord |-> "desc", fwd |-> Fwd])
+\* non-deterministic encodings in either order are still encodings of the same value
+NonDetValid == LET b == EncMsgO(S, T, val, [det |-> FALSE, ord |-> "desc", fwd |-> TRUE])
+                   d == DecInto(S, T, b, EmptyMsg, Opts(FALSE))
+               IN d.ok /\ d.val = val /\ Len(b) = SizeMsg(S, T, val)
 \* re-encoding emits the unknown bytes unchanged after the known fields
 UnknownLast == LET e == EncMsg(S, T, val) IN SubSeq(e, Len(e) - Len(val.u) + 1, Len(e)) = val.u
 =============================================================================
